@@ -575,8 +575,8 @@ def afb2d_nonsep(x, filts, mode='zero'):
         stride = (2, 2)
         x = roll(roll(x, -(Ly//2), dim=2), -(Lx//2), dim=3)
         y = F.conv2d(x, f, padding=pad, stride=stride, groups=C)
-        y[:,:,:Ly//2] += y[:,:,Ny//2:Ny//2+Ly//2]
-        y[:,:,:,:Lx//2] += y[:,:,:,Nx//2:Nx//2+Lx//2]
+        y[:,:,:Ly//2] = y[:,:,:Ly//2] + y[:,:,Ny//2:Ny//2+Ly//2]
+        y[:,:,:,:Lx//2] = y[:,:,:,:Lx//2] + y[:,:,:,Nx//2:Nx//2+Lx//2]
         y = y[:,:,:Ny//2, :Nx//2]
     elif mode == 'zero' or mode == 'symmetric' or mode == 'reflect':
         # Calculate the pad size
@@ -794,8 +794,8 @@ def sfb2d_nonsep(coeffs, filts, mode='zero'):
     x = coeffs.reshape(coeffs.shape[0], -1, coeffs.shape[-2], coeffs.shape[-1])
     if mode == 'periodization' or mode == 'per':
         ll = F.conv_transpose2d(x, f, groups=C, stride=2)
-        ll[:,:,:Ly-2] += ll[:,:,2*Ny:2*Ny+Ly-2]
-        ll[:,:,:,:Lx-2] += ll[:,:,:,2*Nx:2*Nx+Lx-2]
+        ll[:,:,:Ly-2] = ll[:,:,:Ly-2] + ll[:,:,2*Ny:2*Ny+Ly-2]
+        ll[:,:,:,:Lx-2] = ll[:,:,:,:Lx-2] + ll[:,:,:,2*Nx:2*Nx+Lx-2]
         ll = ll[:,:,:2*Ny,:2*Nx]
         ll = roll(roll(ll, 1-Ly//2, dim=2), 1-Lx//2, dim=3)
     elif mode == 'symmetric' or mode == 'zero' or mode == 'reflect' or \
